@@ -43,21 +43,21 @@
 void fibre_verif_reset(void);
 void shim_set_abort_jmp(jmp_buf *j);
 
-enum { FY, FS, FH, NFIB };
-static const char fname[] = "YSH";
+enum { FY, FS, FH, FP, FQ, NFIB }; /* P and Q: plain waiters that run only when requested */
+static const char fname[] = "YSHPQ";
 
 typedef struct {
 	uint32_t id, check;
 } event_t;
 
-static fibre_t fibY, fibS;
+static fibre_t fibY, fibS, fibP, fibQ;
 static fibre_eventq_t evH;
 static event_t evbuf[4];
 static fibre_t *fibp[NFIB];
 
 static uint32_t Tv;           /* virtual time */
 static uint64_t ev_clock;     /* harness event counter (serialised execution) */
-static bool only_c03;
+static bool only_c03, only_c01;
 static bool failed;
 static char scen[VH_TEXT];
 static vh_sb_t evlog;
@@ -109,7 +109,10 @@ static void viol(const char *family, const char *key, const char *fmt, ...)
 	va_start(ap, fmt);
 	vsnprintf(msg, sizeof(msg), fmt, ap);
 	va_end(ap);
-	if (only_c03 && strcmp(family, "wakeup")) {
+	bool mine = only_c03 ? !strcmp(family, "wakeup") :
+		    only_c01 ? (!strcmp(family, "dispatch") || !strcmp(family, "integrity") || !strcmp(family, "wakeup-lost")) :
+			       strcmp(family, "dispatch") != 0; /* C06: everything but the arrival-order clause of C01 */
+	if (!mine) {
 		failed = true; /* ends the run quietly: not this check's clause */
 		VH_COUNT("runs_cut_by_divergence_outside_this_check");
 		return;
@@ -119,10 +122,51 @@ static void viol(const char *family, const char *key, const char *fmt, ...)
 	failed = true;
 }
 
+/* ---- arrival-order oracle (C01): requests whose calls do not overlap are served in their order of arrival ---- */
+#define MAXREQ 512
+static struct {
+	int target;
+	uint64_t inv, ret, served;
+	bool fresh, withdrawn;
+} reqs[MAXREQ];
+static int nreqs;
+static uint64_t last_idle_ev; /* event count at the start of the last pass that found nothing pending and saw no request */
+static int req_open(int f)
+{
+	if (nreqs >= MAXREQ)
+		return -1;
+	reqs[nreqs].target = f;
+	reqs[nreqs].inv = ++ev_clock;
+	reqs[nreqs].ret = 0;
+	reqs[nreqs].served = 0;
+	reqs[nreqs].withdrawn = false;
+	/* fresh: the target has no other reason to run.  Only the waiters H, P, Q qualify, and only if every earlier
+	 * request for the same fibre was made before the scheduler last reported that nothing at all is pending
+	 * (an earlier request may still sit undrained in the queue even after its fibre has run once) */
+	reqs[nreqs].fresh = (f == FH || f == FP || f == FQ);
+	for (int i = 0; i < nreqs; i++)
+		if (reqs[i].target == f && !reqs[i].withdrawn && (!reqs[i].ret || reqs[i].ret > last_idle_ev))
+			reqs[nreqs].fresh = false;
+	return nreqs++;
+}
+static void req_close(int k, bool accepted)
+{
+	if (k < 0)
+		return;
+	if (accepted)
+		reqs[k].ret = ++ev_clock;
+	else
+		reqs[k].withdrawn = true;
+}
+static void check_arrival_order(void);
+
 static void note_dispatch(int f)
 {
 	in_body = true;
 	ev_clock++;
+	for (int i = 0; i < nreqs; i++)
+		if (reqs[i].target == f && reqs[i].ret && !reqs[i].served && !reqs[i].withdrawn)
+			reqs[i].served = ev_clock;
 	seen[f] = work[f];
 	last_dispatch_ev[f] = ev_clock;
 	pending_since_ev[f] = 0;
@@ -130,7 +174,34 @@ static void note_dispatch(int f)
 	vh_sb_add(&evlog, "[%c@%u] ", fname[f], Tv);
 }
 
+static int total_dispatches(void)
+{
+	int n = 0;
+	for (int f = 0; f < NFIB; f++)
+		n += dispatches[f];
+	return n;
+}
+
 /* ---- fibre bodies ---- */
+static int body_P(fibre_t *f)
+{
+	PT_BEGIN_FIBRE(f);
+	for (;;) {
+		note_dispatch(FP);
+		PT_WAIT();
+	}
+	PT_END();
+}
+static int body_Q(fibre_t *f)
+{
+	PT_BEGIN_FIBRE(f);
+	for (;;) {
+		note_dispatch(FQ);
+		shim_harness_point();
+		PT_WAIT();
+	}
+	PT_END();
+}
 static int y_i;
 static int body_Y(fibre_t *f)
 {
@@ -224,8 +295,9 @@ static void post_wakeup(int f)
 {
 	work[f]++;
 	uint32_t v = work[f];
-	ev_clock++;
+	int rq = req_open(f);
 	bool ok = fibre_run_atomic(fibp[f]);
+	req_close(rq, ok);
 	ev_clock++;
 	vh_sb_add(&evlog, "<irq%d run_atomic(%c)=%d> ", shim_level(), fname[f], ok);
 	if (ok) {
@@ -269,7 +341,9 @@ static void post_event(void)
 	uint32_t v = work[FH];
 	if (k >= 0)
 		evs[k].published = true;
+	int rq = req_open(FH);
 	bool ok = fibre_eventq_send(&evH, e);
+	req_close(rq, ok);
 	ev_clock++;
 	if (k >= 0) {
 		evs[k].ret = ev_clock;
@@ -311,9 +385,18 @@ static void isr(int level, int id, void *ctx)
 	case 1: post_event(); break;
 	case 2: post_wakeup(FS); break;
 	case 3: post_wakeup(FH); break;
-	case 4:
+	case 4: {
+		static const int burst[9] = { FP, FQ, FY, FP, FS, FQ, FH, FP, FQ };
 		for (int i = 0; i < 9; i++)
-			post_wakeup(i % 2 ? FY : FS);
+			post_wakeup(burst[i]);
+		break;
+	}
+	case 6: post_wakeup(FP); break;
+	case 7: post_wakeup(FQ); break;
+	case 8:
+		post_wakeup(FP);
+		post_wakeup(FQ);
+		post_wakeup(FH);
 		break;
 	default:
 		post_event();
@@ -358,7 +441,7 @@ static void do_pass(void)
 	passes_run++;
 	int first_rec = nrecs;
 	uint64_t ev_at_start = ev_clock;
-	(void)ev_at_start;
+	int nreqs_at_start = nreqs;
 	shim_clear_last_watched_load();
 	yielded_last_pass = false;
 	int disp_before[NFIB];
@@ -373,6 +456,16 @@ static void do_pass(void)
 	VH_COUNT("passes");
 	if (failed)
 		return;
+	if (wake != Tv && nreqs == nreqs_at_start) {
+		/* everything requested before this pass has been drained and served - unless some request is still
+		 * in progress (a sender between claim and send blocks the queue behind it) */
+		bool in_progress = false;
+		for (int i = 0; i < nreqs; i++)
+			if (!reqs[i].ret && !reqs[i].withdrawn)
+				in_progress = true;
+		if (!in_progress)
+			last_idle_ev = ev_at_start;
+	}
 	if (co_mode) {
 		Tv += 1;
 		return;
@@ -467,7 +560,11 @@ static void run_script_char(char c)
 		wrap_api_begin();
 		vh_sb_add(&evlog, "run(Y) ");
 		work[FY]++;
-		fibre_run(&fibY);
+		{
+			int rq = req_open(FY);
+			fibre_run(&fibY);
+			req_close(rq, true);
+		}
 		if (work[FY] > required[FY])
 			required[FY] = work[FY];
 		if (!pending_since_ev[FY])
@@ -478,7 +575,11 @@ static void run_script_char(char c)
 		wrap_api_begin();
 		vh_sb_add(&evlog, "run(H) ");
 		work[FH]++;
-		fibre_run(&evH.fibre);
+		{
+			int rq = req_open(FH);
+			fibre_run(&evH.fibre);
+			req_close(rq, true);
+		}
 		if (work[FH] > required[FH])
 			required[FH] = work[FH];
 		if (!pending_since_ev[FH])
@@ -495,6 +596,9 @@ static void run_script_char(char c)
 		/* requests accepted before the kill returned may have been withdrawn */
 		required[f] = 0;
 		pending_since_ev[f] = 0;
+		for (int i = 0; i < nreqs; i++)
+			if (reqs[i].target == f && !reqs[i].served)
+				reqs[i].withdrawn = true;
 		if (f == FS)
 			sleeper_active = false;
 		if (f == FY) {
@@ -511,10 +615,16 @@ static void setup(const scenario_t *sc)
 	fibre_verif_reset();
 	fibre_init(&fibY, body_Y);
 	fibre_init(&fibS, body_S);
+	fibre_init(&fibP, body_P);
+	fibre_init(&fibQ, body_Q);
+	nreqs = 0;
+	last_idle_ev = 0;
 	fibre_eventq_init(&evH, body_H, evbuf, sizeof(evbuf), sizeof(evbuf[0]));
 	fibp[FY] = &fibY;
 	fibp[FS] = &fibS;
 	fibp[FH] = &evH.fibre;
+	fibp[FP] = &fibP;
+	fibp[FQ] = &fibQ;
 	Tv = 1000;
 	ev_clock = 1;
 	memset(work, 0, sizeof(work));
@@ -569,9 +679,9 @@ static uint64_t run(const scenario_t *sc, const char *script)
 		int k = 0;
 		for (; k < bound && !failed; k++) {
 			uint32_t before = Tv;
-			int d0 = dispatches[0] + dispatches[1] + dispatches[2];
+			int d0 = total_dispatches();
 			do_pass();
-			bool idle = (dispatches[0] + dispatches[1] + dispatches[2]) == d0;
+			bool idle = (total_dispatches()) == d0;
 			if (idle && !sleeper_active && Tv == before + 1)
 				break;
 		}
@@ -608,12 +718,40 @@ static uint64_t run(const scenario_t *sc, const char *script)
 			viol("integrity", key, "the scheduler reported an unbounded sleep but fibre %c was still on a queue", fname[f]);
 			return pts;
 		}
+	check_arrival_order();
 	VH_COUNT_N("events_delivered", nevs);
 	VH_COUNT_N("isr_inside_scheduler_pass", stat_isr_inside_pass);
 	VH_COUNT_N("isr_inside_fibre_body", stat_isr_inside_body);
 	VH_COUNT_N("isr_inside_fibre_run_or_kill", stat_isr_in_api);
 	VH_COUNT_N("atomic_requests_refused(queue full)", stat_atomic_refused);
 	return pts;
+}
+
+static void check_arrival_order(void)
+{
+	if (failed)
+		return;
+	for (int j = 0; j < nreqs; j++) {
+		if (!reqs[j].ret || reqs[j].withdrawn || !reqs[j].fresh || !reqs[j].served)
+			continue;
+		for (int i = 0; i < nreqs; i++) {
+			if (i == j || !reqs[i].ret || reqs[i].withdrawn || reqs[i].target == reqs[j].target)
+				continue;
+			if (reqs[i].ret >= reqs[j].inv)
+				continue; /* overlapping or later: no order promised */
+			if (reqs[i].served && reqs[i].served < reqs[j].inv)
+				continue; /* already served before j arrived */
+			VH_COUNT("ordered_request_pairs_checked");
+			if (!reqs[i].served || reqs[j].served < reqs[i].served) {
+				viol("dispatch", "requests-served-out-of-arrival-order",
+				     "a request for %c was accepted (call returned at event %" PRIu64 ") before a request for %c was made (event %" PRIu64
+				     "); %c had no other reason to run, yet %c ran first (event %" PRIu64 ") and %c %s",
+				     fname[reqs[i].target], reqs[i].ret, fname[reqs[j].target], reqs[j].inv, fname[reqs[j].target], fname[reqs[j].target],
+				     reqs[j].served, fname[reqs[i].target], reqs[i].served ? "only later" : "never");
+				return;
+			}
+		}
+	}
 }
 
 static void learn_watch(void)
@@ -643,8 +781,8 @@ static void after_run(const scenario_t *sc, uint64_t sig)
 
 static void sweep(bool nested)
 {
-	static const int single_ids[] = { 0, 1, 2, 3, 4, 5 };
-	static const int pair_ids[][2] = { { 1, 1 }, { 0, 1 }, { 1, 0 }, { 4, 1 }, { 2, 0 }, { 5, 3 } };
+	static const int single_ids[] = { 0, 1, 2, 3, 4, 5, 6, 8 };
+	static const int pair_ids[][2] = { { 1, 1 }, { 0, 1 }, { 1, 0 }, { 4, 1 }, { 2, 0 }, { 5, 3 }, { 6, 7 }, { 4, 6 }, { 8, 4 } };
 	uint64_t caseno = 0;
 	for (unsigned si = 0; si < NSCEN; si++) {
 		const scenario_t *sc = &scenarios[si];
@@ -738,9 +876,9 @@ static void random_runs(void)
 		shim_watch(w);
 		uint32_t rate = 200 + vh_below(&r, 3000); /* per-point probability / 65536 */
 		int maxisr = 1 + (int)vh_below(&r, 12);
-		shim_random_isr(0, rate, maxisr, 0, 6, vh_next(&r));
+		shim_random_isr(0, rate, maxisr, 0, 9, vh_next(&r));
 		if (vh_below(&r, 2))
-			shim_random_isr(1, 2000 + vh_below(&r, 8000), 1 + (int)vh_below(&r, 3), 0, 6, vh_next(&r));
+			shim_random_isr(1, 2000 + vh_below(&r, 8000), 1 + (int)vh_below(&r, 3), 0, 9, vh_next(&r));
 		snprintf(scen, sizeof(scen), "random run on scenario '%s' script %s: up to %d ISRs at rate %u/65536 per point", sc.name, script,
 			 maxisr, rate);
 		char key[64];
@@ -779,6 +917,8 @@ static void co_sender(void *arg)
 			post_wakeup(FY);
 		else if (x < 8 && co_sc->useS)
 			post_wakeup(FS);
+		else if (x < 9)
+			post_wakeup(vh_below(&r, 2) ? FP : FQ);
 		else
 			post_wakeup(FH);
 		if (vh_below(&r, 3) == 0)
@@ -792,9 +932,9 @@ static void co_main(void *arg)
 	(void)arg;
 	int guard = 0;
 	while (co_senders_left > 0 && !failed && guard++ < 100000) {
-		int d0 = dispatches[0] + dispatches[1] + dispatches[2];
+		int d0 = total_dispatches();
 		do_pass();
-		if (dispatches[0] + dispatches[1] + dispatches[2] == d0)
+		if (total_dispatches() == d0)
 			shim_co_backoff();
 	}
 }
@@ -838,9 +978,9 @@ static void co_runs(void)
 		int bound = NFIB + 8 + 4 + 3 * sc->s_rounds + 12 + 40;
 		int k = 0;
 		for (; k < bound && !failed; k++) {
-			int d0 = dispatches[0] + dispatches[1] + dispatches[2];
+			int d0 = total_dispatches();
 			do_pass();
-			if (dispatches[0] + dispatches[1] + dispatches[2] == d0 && !sleeper_active)
+			if (total_dispatches() == d0 && !sleeper_active)
 				break;
 		}
 		if (k >= bound && !failed)
@@ -856,6 +996,7 @@ static void co_runs(void)
 			if (evs[i].accepted && evs[i].received != 1)
 				viol("event", evs[i].received ? "event-received-twice" : "event-lost",
 				     "event %u: fibre_eventq_send returned true, received %d times, scheduler idle", evs[i].id, evs[i].received);
+		check_arrival_order();
 		vh_evaluations++;
 		VH_COUNT("coroutine_schedules");
 		VH_COUNT_N("events_delivered", nevs);
@@ -873,6 +1014,7 @@ int main(int argc, char **argv)
 	if (!vh_opt.extra)
 		vh_opt.extra = "sweep";
 	only_c03 = strstr(vh_opt.extra, ":c03") != NULL;
+	only_c01 = strstr(vh_opt.extra, ":c01") != NULL;
 	learn_watch();
 	if (!strncmp(vh_opt.extra, "sweep", 5))
 		sweep(false);
